@@ -13,6 +13,10 @@ Refusal when decoding: prefix longer than 64 bytes (whole or byte by byte), STRI
 SIZE_LIMIT -> BananaError; unknown type byte, VOCAB in dialect `none`, unknown VOCAB id -> some
 exception; in all cases nothing beyond the valid expressions before it is delivered.
 
+Re-entrant use: for a quarter of the streams the receiver echoes every expression with sendEncoded()
+from inside expressionReceived and the echo is decoded and compared again.  The prefix-limit cases
+(64 bytes accepted, 65 refused, typed and untyped) are also delivered split at every offset.
+
 Guards: bool is not generated (it is an int subclass and decodes as int); signalling NaNs are not
 generated (platform may quiet them); empty deliveries are not made (Banana asserts on them).
 """
@@ -34,7 +38,7 @@ ASSUMPTIONS = ["floats are compared through struct.pack('!d'), the same primitiv
 SHARDS = {"quick": 4, "thorough": 16}
 FLOORS = {"roundtrip_streams": 1000, "decoder_runs": 20000, "expressions_compared": 20000, "boundary_ints": 500, "float_specials": 300,
           "vocab_words_pb": 100, "encode_refusals": 200, "decode_refusals": 300, "prefix_64_accepted": 20, "depth_ge_4": 50,
-          "bytewise_overlong_prefix": 10}
+          "bytewise_overlong_prefix": 10, "prefix_boundary_split_runs": 5000, "echo_roundtrips": 200}
 READY = True
 
 LIMIT = 2 ** 448 - 1
@@ -144,8 +148,12 @@ def banana_cls():
             def connectionReady(self):
                 self.ready = True
 
+            echo = False
+
             def expressionReceived(self, obj):
                 self.got.append(obj)
+                if self.echo:  # application code sending from inside the delivery callback
+                    self.sendEncoded(obj)
 
         _cls["B"] = B
         _cls["mod"] = banana
@@ -284,7 +292,31 @@ def check_roundtrip(ctx, rng, case, exprs=None, dialect=None, to_server=None):
                            "wire_len": len(wire), "cuts": list(cuts), "received": show(got)})
             break
     ctx.evaluated(nruns - 1)
+    if rng.random() < 0.25 and len(wire) < 4000:
+        check_echo(ctx, rng, case, dialect, to_server, exprs, expected, wire)
     return exprs, wire, nruns
+
+
+def check_echo(ctx, rng, case, dialect, to_server, exprs, expected, wire):
+    """Re-entrant use: the receiver sends every expression back from inside expressionReceived (the
+    decoded values are re-encoded while dataReceived is still running); the echo must decode to the
+    same expressions again."""
+    rx = fresh_receiver(dialect, to_server)
+    rx.transport.take()
+    rx.echo = True
+    err = None
+    try:
+        for p in (random_split(rng, wire, 12) if rng.random() < 0.5 else [wire]):
+            rx.dataReceived(p)
+    except Exception as e:
+        err = e
+    back = rx.transport.take()
+    got2, err2 = (None, None) if err is not None else decode(dialect, not to_server, [back] if back else [])
+    ctx.count("echo_roundtrips")
+    ctx.evaluated()
+    if err is not None or err2 is not None or len(got2) != len(expected) or not all(same(a, b) for a, b in zip(expected, got2)):
+        ctx.violation("echo-from-expressionreceived-mismatch", "expressions re-sent from inside expressionReceived do not decode to the original ones",
+                      {"case": case, "dialect": dialect, "sent": show(exprs), "error": repr(err or err2), "echo_decoded": show(got2) if got2 is not None else None})
 
 
 class Unsupported:
@@ -382,34 +414,47 @@ def check_decode_refusal(ctx, rng, case):
     wire = head + lead + body
     bytewise = kind == "prefix-65-untyped" and rng.random() < 0.5
     pieces = [wire[i:i + 1] for i in range(len(wire))] if bytewise else (random_split(rng, wire, 16) if rng.random() < 0.6 else [wire])
-    got, err = decode(dialect, False, pieces)
     ctx.count("decode_refusal_cases")
     ctx.evaluated()
     ctx.distinct(("dec-refusal", kind, dialect, wire))
-    ctx.seen("decode_refusal_kinds", "%s -> %s" % (kind, type(err).__name__ if err is not None else "accepted"))
     exp_before = [good] if head else []
-    w = {"case": case, "kind": kind, "dialect": dialect, "wire_hex": wire.hex() if len(wire) < 1500 else None, "pieces": len(pieces), "in_list": in_list,
-         "error": repr(err), "received": show(got)}
+    exp_val = None
     if must_banana is None:
-        ctx.count("prefix_64_accepted")
         n = 0
         for i, ch in enumerate(body[:64]):
             n += ch << (7 * i)
         exp_val = -n if body[64:65] == b"\x86" else n
-        if err is not None or (not in_list and (len(got) != len(exp_before) + 1 or got[-1] != exp_val)):
-            ctx.violation("max-prefix-rejected", "a 64-byte prefix (the documented maximum) was not decoded", w)
-        return
-    if err is None:
-        ctx.violation("malformed-stream-accepted-" + kind, "no exception for a stream that must be refused", w)
-        return
-    if must_banana and not isinstance(err, banana.BananaError):
-        ctx.violation("limit-violation-wrong-exception-" + kind, "oversized prefix/length raised %s instead of BananaError" % type(err).__name__, w)
-        return
-    ctx.count("decode_refusals")
-    if bytewise:
-        ctx.count("bytewise_overlong_prefix")
-    if not (len(got) == len(exp_before) and all(same(norm(a), b) for a, b in zip(exp_before, got))):
-        ctx.violation("mis-decoding-before-refusal", "expressions delivered before the refusal are not exactly the valid ones", dict(w, expected=show(exp_before)))
+
+    def judge(pieces, main):
+        got, err = decode(dialect, False, pieces)
+        w = {"case": case, "kind": kind, "dialect": dialect, "wire_hex": wire.hex() if len(wire) < 1500 else None, "piece_lengths": [len(p) for p in pieces][:70],
+             "in_list": in_list, "error": repr(err), "received": show(got)}
+        if main:
+            ctx.seen("decode_refusal_kinds", "%s -> %s" % (kind, type(err).__name__ if err is not None else "accepted"))
+        if must_banana is None:
+            ctx.count("prefix_64_accepted")
+            if err is not None or (not in_list and (len(got) != len(exp_before) + 1 or got[-1] != exp_val)):
+                ctx.violation("max-prefix-rejected", "a 64-byte prefix (the documented maximum) was not decoded", w)
+            return
+        if err is None:
+            ctx.violation("malformed-stream-accepted-" + kind, "no exception for a stream that must be refused", w)
+            return
+        if must_banana and not isinstance(err, banana.BananaError):
+            ctx.violation("limit-violation-wrong-exception-" + kind, "oversized prefix/length raised %s instead of BananaError" % type(err).__name__, w)
+            return
+        ctx.count("decode_refusals")
+        if main and bytewise:
+            ctx.count("bytewise_overlong_prefix")
+        if not (len(got) == len(exp_before) and all(same(norm(a), b) for a, b in zip(exp_before, got))):
+            ctx.violation("mis-decoding-before-refusal", "expressions delivered before the refusal are not exactly the valid ones", dict(w, expected=show(exp_before)))
+
+    judge(pieces, True)
+    if kind.startswith("prefix-") and len(wire) <= 160:
+        # the prefix limit delivered split at every offset
+        for cut in range(1, len(wire)):
+            judge([wire[:cut], wire[cut:]], False)
+            ctx.count("prefix_boundary_split_runs")
+        ctx.evaluated(len(wire) - 1)
 
 
 def check_size_limit_values(ctx):
